@@ -4,7 +4,7 @@
 // and every counter is at least 1.  (C04 relies on it; the "at most one variable" restriction is what makes the renaming of a
 // cached result by substitute_hctl_var sound.)
 // ======================================================================================
-pub open spec fn nd_ok(x: NodeWithDomains) -> bool { wf(*x.subtree) && tree_pre(view_tree(*x.subtree)) }
+pub open spec fn nd_ok(x: NodeWithDomains) -> bool { wf(*x.subtree) && tree_pre(view_tree(*x.subtree)) && rsmall(view_tree(*x.subtree)) }
 pub open spec fn nd_size(x: NodeWithDomains) -> nat { s_size(view_tree(*x.subtree)) }
 pub open spec fn heap_ok(h: Seq<NodeWithDomains>) -> bool { forall|i: int| 0 <= i < h.len() ==> nd_ok(#[trigger] h[i]) }
 pub open spec fn heap_total(h: Seq<NodeWithDomains>) -> nat decreases h.len() {
